@@ -45,6 +45,10 @@ def scenario(args):
         # a sparse file: several chunks far beyond the number of chunks present
         cli(['put', '-d', p, '-f', 'RECZ' + ('.TXT' if '.' in n1 else ''), '-t', 'rec'],
             stdin=json.dumps({"fimg_type": "rec", "record_length": 64, "records": {str(r): [f"FAR{r}"] for r in (0, 40, 90, 200, 333)}}).encode(), env=env)
+        if o.startswith('cpm'):
+            # files in several user areas: stat, catalog and tree enumerate the areas
+            for u in (3, 1, 15, 7, 2, 11, 5, 9):
+                cli(['put', '-d', p, '-f', f'{u}:U{u}.TXT', '-t', 'txt'], stdin=f'USER {u}\n'.encode(), env=env)
         if dirs:
             cli(['mkdir', '-d', p, '-f', 'SUB'], env=env)
             cli(['put', '-d', p, '-f', 'SUB/INNER' + ('.TXT' if '.' in n1 else ''), '-t', 'txt'], stdin=b'INNER\n', env=env)
